@@ -242,9 +242,9 @@ Proof.
   destruct (read_knots_ok _ _ _ Hik) as [h [Fh [Fa Ek]]]. exists h. auto.
 Qed.
 
-Theorem accept_wf_mem b t : read_mem_checked b = RAccept t -> safe_table t = true /\ sizes_match_header b t.
+Theorem accept_wf_mem b t : read_mem_checked b = RAccept t -> safe_table t = true /\ sizes_match_header (whole_blocks b) t.
 Proof.
-  unfold read_mem_checked. destruct (mem_guard_present && tail_truncated b); [discriminate|]. apply accept_wf.
+  unfold read_mem_checked. cbv zeta. destruct (mem_guard_present && tail_truncated (whole_blocks b)); [discriminate|]. apply accept_wf.
 Qed.
 
 (* nothing changes for the files the unchecked reader accepts with a well-formed table: the checks reject only unsafe tables *)
